@@ -304,7 +304,12 @@ class HP:
                 self._on_jump(a, e[2])
             if e[1] in ("abs", "sign") and a == 0 and e[2][0] not in ("num", "int"):
                 self.unstable = self.unstable or e[1] == "sign"
-            return r(hp_fn(e[1], a))
+            v = hp_fn(e[1], a)
+            if e[1] in ("sin", "cos", "tan") and _fin(v) and v != 0 and abs(v) < mpf("1e-40") and abs(a) > mpf("1e-3"):
+                # sin(pi), cos(pi/2 + pi): zero in exact arithmetic (sympy evaluates them to 0), 1e-51 at 50 digits;
+                # a quotient by such a value is a division by zero, not a number of size 1e50
+                v = mpf(0)
+            return r(v)
         if tag == "rel":
             if _bare(e[2]) and _bare(e[3]):
                 # an input compared with a literal or another input: both sides are exact doubles in every
@@ -330,10 +335,10 @@ class HP:
             b = self.ev(e[2], env)
             return mpf(1) if (a != 0 or b != 0) else mpf(0)
         if tag == "cond":
+            # the value of the selected branch; what the other branch does at this point (sqrt of a negative number
+            # behind a guard, a quotient by zero) is not part of the meaning
             c = self.ev(e[1], env)
-            a = self.ev(e[2], env)
-            b = self.ev(e[3], env)
-            return a if c != 0 else b
+            return self.ev(e[2], env) if c != 0 else self.ev(e[3], env)
         if tag == "ccond":
             rel = e[1]
             x, y, a, b, s = (self.ev(t, env) for t in e[2:])
